@@ -1045,7 +1045,36 @@ func (b *Builder) objAt(v ssa.Value, at ssa.Instruction, depth int) *Term {
 	if len(h) == 0 {
 		return base
 	}
+	// new(big.Int).SetUint64(uint64(n)) / .SetInt64(int64(n)) for a length n is big.NewInt(int64(n))
+	if base.Op == "alloc" && base.Name == "math/big.Int" && h[0].Op == "call" && (h[0].Name == "(*math/big.Int).SetUint64" || h[0].Name == "(*math/big.Int).SetInt64") && len(h[0].Args) == 2 && h[0].Args[0].Op == "self" {
+		if a := h[0].Args[1]; a.Op == "conv" && len(a.Args) == 1 && (a.Name == "uint64" || a.Name == "int64") && lengthLike(a.Args[0]) {
+			conv := a
+			if a.Name == "uint64" {
+				conv = &Term{Op: "conv", Name: "int64", V: a.V, Args: a.Args}
+			}
+			base = &Term{Op: "call", Name: "math/big.NewInt", V: base.V, Args: []*Term{conv}}
+			h = h[1:]
+			if len(h) == 0 {
+				return base
+			}
+		}
+	}
 	return &Term{Op: "obj", V: v, Args: append([]*Term{base}, h...)}
+}
+
+// lengthLike: len(x), cap(x), or such a value plus / times non-negative constants.
+func lengthLike(t *Term) bool {
+	switch t.Op {
+	case "len", "cap":
+		return true
+	case "bin":
+		if (t.Name == "+" || t.Name == "*") && len(t.Args) == 2 {
+			if c, ok := isConstInt(t.Args[1]); ok && c.Sign() >= 0 {
+				return lengthLike(t.Args[0])
+			}
+		}
+	}
+	return false
 }
 
 // history lists, in dominance order, the mutations of the object rooted at
